@@ -666,3 +666,13 @@ def run(ctx):  # noqa: F811
     r01_1(ctx)
     r01_2(ctx)
     r01_3(ctx)
+
+
+_run_c01_base = run
+
+
+def run(ctx):  # noqa: F811
+    _run_c01_base(ctx)
+    # simplification in SandwichOperator.make (shared with C11): scaling bun -> |f|^2 * cheese
+    from .c11 import r11_5
+    r11_5(ctx, ctx.model, rid="R01.4")
